@@ -103,7 +103,7 @@ def m_global(ctx, case):
         return
     res = r_a[1]
     nl0, nl1 = cpr.NL(rl0), cpr.NL(rl1)
-    ambiguous_nl = cpr.near_transition(rl0) or cpr.near_transition(rl1)
+    ambiguous_nl = (cpr.near_transition(rl0) and abs(rl0) != 87.0) or (cpr.near_transition(rl1) and abs(rl1) != 87.0)   # NL(+-87) = 2 is defined explicitly
     hemi = "N" if case["p0"][0] >= 0 else "S"
     if res is None:
         ctx.hit("none_result")
